@@ -57,8 +57,8 @@ func (m *Manager) HeaderStoreRetrieveLoop(ctx context.Context) {
 				case m.headerInCh <- NewHeaderEvent{header, daHeight}:
 				}
 			}
+			lastHeaderStoreHeight = headerStoreHeight
 		}
-		lastHeaderStoreHeight = headerStoreHeight
 	}
 }
 
@@ -105,8 +105,8 @@ func (m *Manager) DataStoreRetrieveLoop(ctx context.Context) {
 				case m.dataInCh <- NewDataEvent{d, daHeight}:
 				}
 			}
+			lastDataStoreHeight = dataStoreHeight
 		}
-		lastDataStoreHeight = dataStoreHeight
 	}
 }
 
